@@ -497,13 +497,13 @@ package spdxexp
 //@ end
 
 //@ func ExtractLicenses
-//@   ghostparam x Tree
-//@   ghostlet s = reconT(x)
 //@   modifies nothing
 //@   ensures[C04] isErr(result1) <==> !V(expression)
 //@   ensures[C04] isErr(result1) ==> result0 == nil
 //@   ensures[C06] !isErr(result1) ==> noDups(result0)
-//@   ensures[C06,C10] !isErr(result1) && leafOf(Ptree(expression), x) ==> occurs(result0, reconT(x))
+//@   ensures[C06,C10] noTermMissing: !isErr(result1) ==> forall x Tree :: leafOf(Ptree(expression), x) ==> occurs(result0, reconT(x))
+//@   ensures[C06,C10] noneInvented: !isErr(result1) ==> forall k :: 0 <= k && k < len(result0) && occurs(result0, result0[k]) ==> exists y Tree :: leafOf(Ptree(expression), y) && result0[k] == reconT(y)
+//@   ensures[C06] !isErr(result1) ==> forall k :: 0 <= k && k < len(result0) ==> occurs(result0, result0[k])
 //@   loop 0:
 //@     invariant[C03,C13] fresh(licenses)
 //@     invariant[C06] len(licenses) == $i && $i <= len(allLicenses) && forall k :: 0 <= k && k < $i ==> licenses[k] == reconT(allLicenses[k].tree)
